@@ -410,8 +410,8 @@ theorem struct_accepts {rec : Schema → Id → Bool} {n m : Nat} (hm : m < n) (
                   cases f with
                   | zero => exact ⟨by simp [deFlat, NR], by simpa [deFlat] using hc'⟩
                   | succ f' =>
-                    simp only [deFlat, hge]
-                    exact ⟨map_entries_NR x vx σ d hm hrec hge hgk hsa hc' f', hc'⟩)
+                    rw [deFlat_map_eq x σ hge]
+                    exact ⟨map_entries_NR x vx σ d hm hrec hge hgk hsa hc' (f' + 1), hc'⟩)
               revert hfold
               generalize foldFields _ _ fields (bufferOf fields kvs) = r
               intro hfold
